@@ -91,6 +91,7 @@ def parsePSpecToks : Nat → List String → Option (PSpec Rat × List String)
   | _ + 1, "soft" :: s :: r => do some (.soft (← parseRat s), r)
   | _ + 1, "scale" :: s :: r => do some (.scale (← parseRat s), r)
   | _ + 1, "clamp" :: a :: b :: r => do some (.clamp (← parseRat a) (← parseRat b), r)
+  | _ + 1, "ball" :: a :: r => do let a ← parseRat a; some (.clamp (-a) a, r)   -- L∞ ball of radius a
   | _ + 1, "lower" :: a :: r => do some (.lower (← parseRat a), r)
   | _ + 1, "upper" :: a :: r => do some (.upper (← parseRat a), r)
   | _ + 1, "affine" :: c :: g :: r => do some (.affine (← parseRat c) (← parseRatList g), r)
